@@ -1,4 +1,5 @@
 """C15 — SLURM: a payload is dropped exactly when some filter of its kind matches (spec/Slurm.tla)."""
+import json
 import os
 import vlib
 from vlib import Check, tlc, tlc_must_hold, vh, workdir, write_ndjson, cfg_with
@@ -20,6 +21,27 @@ def run(tier, seed):
     path = write_ndjson(os.path.join(wd, "cases.ndjson"), cases)
     s = vh(["replay", "slurm", path], timeout=3000)
     c.add_harness(s, "every case as a real SlurmFile in 2 address renderings: drop_payload, JSON round trip (compact+pretty), iter_payload")
+
+    # the other half of the statement: assertion lists (SlurmAssert.tla), grown one assertion at a time
+    ma = 2
+    r2 = tlc("MC_SlurmAssert", "MC_SlurmAssert.cfg", workers=4 if quick else 12, xmx="6g", timeout=3000)
+    tlc_must_hold(r2, "SlurmAssert")
+    vlib.require_coverage(r2, ["Add"], "SlurmAssert")
+    c.add_tlc(r2, f"every assertion list up to {ma} assertions out of 222 (prefix length 0 / middle / host x maximum length absent / same / longer / "
+                  "top, AS 0 / ordinary / 2^32-1, key information of 0..4 octets, provider lists empty / unsorted / with a repeat, with and "
+                  "without comment): YieldsEach RoundTrip")
+    acases = r2.replay if not quick else [x for i, x in enumerate(r2.replay) if len(x["alist"]) < 2 or i % 4 == seed % 4]
+    s2 = vh(["replay", "slurm", write_ndjson(os.path.join(wd, "assert.ndjson"), acases)], timeout=3000)
+    c.add_harness(s2, "every list as a real SlurmFile: iter_payload yields each assertion's item with exactly its fields, the lists one after the "
+                      "other; JSON (compact and pretty) parses back to an equal file that yields the same items")
+
+    def corrupt_a(cs):
+        for x in cs:
+            if len(x["alist"]) == 1 and x["alist"][0]["kind"] == "bgpsec" and x["alist"][0]["keylen"] == 2:
+                y = json.loads(json.dumps(x))
+                y["yield"][0]["keylen"] = 3
+                return y
+    vlib.selfcheck_replay(c, "slurm", acases, corrupt_a, "assert.yield")
 
     def corrupt(cs):
         for x in cs:
